@@ -71,15 +71,24 @@ def looponfail():
     return run
 
 
+def system(profiles: list[str], quick: int = 300, thorough: int = 6000, modes: list[str] | None = None):
+    def run(tier: str, seed: int, prop: str) -> CompResult:
+        import t2_system
+
+        return t2_system.run(profiles, budget(tier, quick, thorough), seed, modes)
+
+    return run
+
+
 LB = ["load", "worksteal", "loadscope", "loadfile", "loadgroup"]
 
 PROPS: dict[str, dict[str, Any]] = {
     "C01": {
-        "components": [sched(LB, crash=0.0)],
+        "components": [sched(LB, crash=0.0), system(["plain"], 400, 8000)],
         "assumptions": ["whole-system composition (worker + channels) is argued in DESIGN §5 C01 from the worker theorems and FIFO delivery"],
     },
     "C03": {
-        "components": [sched(LB, crash=0.12)],
+        "components": [sched(LB, crash=0.12), system(["crash"], 400, 8000)],
         "assumptions": ["'head of the book = the test in hand' relies on the book/queue correspondence (C05, C07) and FIFO channels"],
     },
     "C05": {
@@ -92,7 +101,8 @@ PROPS: dict[str, dict[str, Any]] = {
         "assumptions": ["queue duplicate-freeness is an invariant of reachable system states (controller never has an index outstanding twice, C16)"],
     },
     "C16": {
-        "components": [sched(["load", "worksteal", "loadscope", "loadfile", "loadgroup", "each"], crash=0.08)],
+        "components": [sched(["load", "worksteal", "loadscope", "loadfile", "loadgroup", "each"], crash=0.08),
+                       system(["plain", "crash", "stop", "each", "budget"], 400, 8000)],
         "assumptions": ["theorems cover load and worksteal; the loadscope family and each are covered by the correspondence + wire monitors only",
                         "load: the first schedule() does not check shutting_down (stated as hypothesis, witness proved)"],
     },
@@ -109,7 +119,7 @@ PROPS: dict[str, dict[str, Any]] = {
                         "mtimes are whole seconds in the harness (st_mtime is compared as a float by the code)"],
     },
     "C15": {
-        "components": [sched(["load", "worksteal"], crash=0.15)],
+        "components": [sched(["load", "worksteal"], crash=0.15), system(["requeue"], 400, 8000)],
         "assumptions": ["the crash hook is a plugin: its calls to mark_test_pending are the `markPending` ops of the sequences"],
     },
 }
@@ -178,6 +188,17 @@ def replay(path: Path) -> int:
         for o, m, i in zip(ops, model, impl):
             flag = " " if m == i else "!"
             print(f"{flag} {o}\n    model: {m}\n    impl : {i}")
+    if ops and comp.startswith("system"):
+        import t2_system
+
+        s = t2_system.replay(ops)
+        print("outcome:", s.outcome)
+        print("notes:", *s.notes, sep="\n  ")
+        print("controller events:", s.ctl_events)
+        print("wire:", *s.wirelog, sep="\n  ")
+        print("crash reports:", s.crashitems, "executions:", s.executions)
+        for w in s.workers:
+            print(f"  {w.id}: pc={w.pc} ran={w.ran} completed={w.completed} died={w.death_hold}")
     if ops and comp.startswith("sched."):
         import t1_sched
 
